@@ -31,12 +31,30 @@ Fixpoint strictly_mono (rev : bool) (l : list N) : bool :=
   | _ => true
   end.
 
+(* offset paging, stated directly (independently of the model of FilteredPaginate): the page is the slice
+   [offset, offset + limit) of the stored matching items in iteration order, and a reported total (count_total, or the
+   default page) is the number of stored matching items *)
+Definition matching_keys (items : list (N * bool)) (rev : bool) : list N :=
+  let ks := map fst (filter (fun kv => snd kv) items) in if rev then List.rev ks else ks.
+
+Definition offset_page_ok (items : list (N * bool)) (req : page_req) (ks : list N) (tot : N) : bool :=
+  match pr_key req with
+  | KeyNil =>
+      let all := matching_keys items (pr_reverse req) in
+      let n := N.of_nat (List.length all) in
+      (* (offsets and limits are uint64: clip them to the list length before turning them into unary numbers) *)
+      list_eqb N.eqb ks (firstn (N.to_nat (N.min (eff_limit req) n)) (skipn (N.to_nat (N.min (pr_offset req) n)) all))
+      && (if eff_count_total req then tot =? N.of_nat (List.length all) else true)
+  | _ => true
+  end.
+
 Definition page_mon_ok (c : page_case) : bool :=
   match c with
-  | PPage items req (Some (ks, _, _)) =>
+  | PPage items req (Some (ks, _, tot)) =>
       forallb (fun k => existsb (fun kv => (fst kv =? k) && snd kv) items) ks
       && strictly_mono (pr_reverse req) ks
       && (N.of_nat (List.length ks) <=? eff_limit req)
+      && offset_page_ok items req ks tot
   | _ => true
   end.
 
